@@ -76,7 +76,8 @@ Definition bcast_idx (sh : list nat) (i : idx) : idx := rev (bcast_idx_rev (rev 
 Definition norm_atol : Q := (1 # 100000000)%Q.
 Definition sumsq (v : list Q) : Q := fold_right (fun x acc => x * x + acc)%Q 0%Q v.
 (* ~isclose(|v|, 0)  <=>  |v| > atol  <=>  |v|^2 > atol^2 *)
-Definition norm_valid (v : list Q) : bool := Qltb (norm_atol * norm_atol) (sumsq v).
+Definition norm_valid_at (atol : Q) (v : list Q) : bool := Qltb (atol * atol) (sumsq v).
+Definition norm_valid (v : list Q) : bool := norm_valid_at norm_atol v.
 
 (* split a flat (cells x nvdim) value list into per-cell vectors *)
 Fixpoint chunks {A} (k : nat) (ncell : nat) (l : list A) : list (list A) :=
@@ -105,6 +106,11 @@ Definition set_valid (n : list nat) (nvdim : nat) (vals : list Q) (v : vinput) :
   | VCallable percell =>
       if length percell =? nprod n then OK (mkM n (map truthy percell)) else Err ValueE
   end.
+
+(* a field as far as the setter is concerned: values and mask; assignment keeps the values *)
+Record fstate := mkF { fn : list nat; fnvdim : nat; fvals : list Q; fvalid : marr }.
+Definition assign_valid (f : fstate) (v : vinput) : res fstate :=
+  do m <- set_valid (fn f) (fnvdim f) (fvals f) v; OK (mkF (fn f) (fnvdim f) (fvals f) m).
 
 (* provenance of the stored mask: np.array(view-of-input, dtype=bool) always copies *)
 Definition setter_prov (p : prov) : prov := p_new (p_view (p_view p)).
@@ -302,8 +308,19 @@ Fixpoint eprov (e : expr) : prov :=
   end.
 
 (* ------------------------------------------------------------------ specification side *)
-(* validity of an expression as a function of the result cell: AND over the leaves, each read
-   at the cell the index maps send the result cell to *)
+(* the plain reading of the property: operands' masks, cell-wise AND, gathers — no constructor,
+   no setter, no rejection *)
+Fixpoint sem (env : list marr) (e : expr) : marr :=
+  match e with
+  | Leaf k => nth k env (mkM [] [])
+  | Pos e | Un _ e => sem env e
+  | Bin _ e1 e2 => and_cells (sem env e1) (sem env e2)
+  | Map m e =>
+      let v := sem env e in
+      mtab (map_shape m (msh v)) (gather m (msh v) (map_fill m) (mget v))
+  end.
+
+(* shape of the result; None when an operation rejects *)
 Fixpoint eshape (shs : list (list nat)) (e : expr) : option (list nat) :=
   match e with
   | Leaf k => nth_error shs k
@@ -317,18 +334,6 @@ Fixpoint eshape (shs : list (list nat)) (e : expr) : option (list nat) :=
       match eshape shs e with
       | Some a => if map_ok m a then Some (map_shape m a) else None
       | None => None
-      end
-  end.
-
-Fixpoint spec (shs : list (list nat)) (env : nat -> idx -> bool) (e : expr) (i : idx) : bool :=
-  match e with
-  | Leaf k => env k i
-  | Pos e | Un _ e => spec shs env e i
-  | Bin _ e1 e2 => spec shs env e1 i && spec shs env e2 i
-  | Map m e =>
-      match eshape shs e with
-      | Some a => gather m a (map_fill m) (spec shs env e) i
-      | None => true
       end
   end.
 
